@@ -249,3 +249,64 @@ func runShapes(work string, progs []regosym.Program, scope func(regosym.Program)
 	wg.Wait()
 	return outs, nil
 }
+
+// runRewrites checks base profile x rewrite pairs for equal results on all graphs of the scope.
+func runRewrites(work string, bases []regosym.Program, rewrites []regosym.RewriteOpts, n int, workers int) ([]regosym.Outcome, error) {
+	drv, err := regosym.BuildDriver(repoDir, verifDir(), work)
+	if err != nil {
+		return nil, err
+	}
+	type job struct {
+		desc         string
+		base         regosym.Program
+		textA, textB string
+	}
+	var jobsl []job
+	var texts []string
+	for _, b := range bases {
+		ta := regosym.RewriteOpts{}.Render(b)
+		for _, rw := range rewrites {
+			tb := rw.Render(b)
+			jobsl = append(jobsl, job{b.Name + " / " + rw.Description, b, ta, tb})
+			texts = append(texts, ta, tb)
+		}
+	}
+	gens, err := drv.Generate(texts)
+	if err != nil {
+		return nil, err
+	}
+	outs := make([]regosym.Outcome, len(jobsl))
+	var wg sync.WaitGroup
+	ch := make(chan int, len(jobsl))
+	for i := range jobsl {
+		ch <- i
+	}
+	close(ch)
+	for w := 0; w < workers; w++ {
+		wg.Add(1)
+		go func() {
+			defer wg.Done()
+			s, err := smt.NewSolver("z3")
+			if err != nil {
+				return
+			}
+			defer s.Close()
+			c := &regosym.Checker{Drv: drv, Solver: s}
+			for i := range ch {
+				j := jobsl[i]
+				ga, gb := gens[2*i], gens[2*i+1]
+				if ga.Error != "" || gb.Error != "" {
+					outs[i] = regosym.Outcome{Program: j.desc, Profile: j.textB, Status: "generate-error", Label: "C15.results-eq-under-rewrite", Detail: "original: " + ga.Error + " rewritten: " + gb.Error}
+					if (ga.Error == "") != (gb.Error == "") {
+						outs[i].Status = "violation"
+						outs[i].Data = "{}"
+					}
+					continue
+				}
+				outs[i] = c.CheckEquivalent(j.desc, j.textA, j.textB, ga.Code, gb.Code, regosym.ScopeFor(j.base, n, 2, 3))
+			}
+		}()
+	}
+	wg.Wait()
+	return outs, nil
+}
